@@ -203,6 +203,15 @@ class ClassRef(Abs):
     def __init__(self, qual):
         self.qual = qual
 
+    def __eq__(self, other):
+        return isinstance(other, ClassRef) and other.qual == self.qual
+
+    def __ne__(self, other):
+        return not self.__eq__(other)
+
+    def __hash__(self):
+        return hash(("ClassRef", self.qual))
+
     def __repr__(self):
         return "ClassRef(%s)" % self.qual
 
@@ -1050,6 +1059,14 @@ class Interp(object):
                 f = ci.own_func(name)
                 if f is not None:
                     decs = [norm(d) for d in f.decorator_list]
+                    if any(d.endswith(".setter") or d.endswith(".deleter") for d in decs):
+                        # property with a setter: the getter is the earlier def of the same name
+                        for st in ci.node.body:
+                            if isinstance(st, ast.FunctionDef) and st.name == name and \
+                                    any(norm(d) == "property" for d in st.decorator_list):
+                                f = st
+                                decs = [norm(d) for d in f.decorator_list]
+                                break
                     fn = Func(f, ci.module, q)
                     if self.apply_decorators and f.decorator_list:
                         fn = self._decorate(fn, f, ci, q)
